@@ -2,7 +2,7 @@
    MiniEgo VM model; proofs live in Proofs.v. *)
 From Coq Require Import ZArith NArith List Bool.
 Import ListNotations.
-From VM Require Import Model Proofs Shape.
+From VM Require Import Model Proofs Shape Shape2.
 Open Scope nat_scope.
 
 (* A catchable error raised in ANY running context whose innermost live try entry is number k and whose try
@@ -236,4 +236,54 @@ Proof.
   destruct (handle_catch ex_ctx (Some EDivZero)) as [c' e] eqn:E.
   assert (e = None) by (vm_compute in E; congruence). subst e.
   exists c'. split; [reflexivity|]. eapply catch_preserves_shape; eauto.
+Qed.
+
+(* ------------------------------------------------------------------ the shape over whole runs (coq/VM/Shape2.v) *)
+(* shape2 = call frames saved the frame pointer of the stack below them + the frame pointer is consistent.
+   EVERY instruction of the model -- completing or failing, Return in all operand forms, Dup, the entry
+   instructions -- keeps it, unless it pops a call frame off an empty local stack (underflow c i = true: the
+   one way the model and the Go VM lose the shape) ... *)
+Theorem C10_exec_preserves_shape : forall child p g c i g' c' e,
+  shape2 c -> underflow c i = false -> exec child p g c i = (g', c', e) -> shape2 c'.
+Proof. exact exec_shape2. Qed.
+
+(* ... so does a whole dispatch step: the instruction, the catch redirection of its error (caught or not) and
+   panic unwinding with the deferred calls of every frame it pops ... *)
+Theorem C10_dispatch_preserves_shape : forall child p g c i g1 c1 e fl,
+  shape2 c -> underflow c i = false -> step child p g c i = ((g1, c1, e), fl) -> shape2 c1.
+Proof. exact step_shape2. Qed.
+
+(* ... and a whole run: run_u is run with a flag raised when some dispatched instruction underflowed
+   (run_u_project: it is the same run); unless the flag is raised the context the run ends in -- normally, with
+   an uncaught error, with an unhandled panic or out of fuel -- is well shaped. *)
+Theorem C10_run_u_is_run : forall fuel p g c, fst (run_u fuel p g c) = run fuel p g c.
+Proof. exact run_u_project. Qed.
+
+Theorem C10_run_preserves_shape : forall fuel p g c,
+  shape2 c -> snd (run_u fuel p g c) = false -> shape2 (snd (fst (run fuel p g c))).
+Proof. exact run_preserves_shape. Qed.
+
+(* Return in every operand form, and panic unwinding, as whole instructions *)
+Theorem C10_return_preserves_shape : forall g c k g' c' e,
+  shape2 c -> (match k with RBool | RInt 1 => top_frame c = false | _ => True end) ->
+  do_return g c k = (g', c', e) -> shape2 c'.
+Proof. exact do_return_shape2. Qed.
+
+Theorem C10_unwind_panic_preserves_shape : forall child p fuel g c g' c' e,
+  shape2 c -> unwind_panic child p fuel g c = (g', c', e) -> shape2 c'.
+Proof. exact unwind_panic_shape2. Qed.
+
+Example C10_run_preserves_shape_nonvacuous :
+  let p := [ {| u_lit := false; u_nret := 0;
+                u_code := [ITry 9; IPushMark L_try; IPushFun 1; ICall 0; IPushV (VInt 7); IPrint 1;
+                           IDropToMarker (Some L_try); IBranch 11; INop; IPushV (VInt 8); IPrint 1; ITryPop] |};
+             {| u_lit := false; u_nret := 1;
+                u_code := [IDeferStart true; IPushFun 2; IDefer 0; IPushV (VInt 1); IPushV (VInt 0); IBin BDiv;
+                           IRunDefers; IReturn (RInt 1)] |};
+             {| u_lit := true; u_nret := 0; u_code := [IPushV (VInt 5); IPrint 1; IRunDefers; IReturn RNone] |} ] in
+  shape2 (init_ctx false) /\ snd (run_u 100 p init_glob (init_ctx false)) = false /\
+  run_program 100 p = [0; 8]%Z /\ shape2 (snd (fst (run 100 p init_glob (init_ctx false)))).
+Proof.
+  cbn zeta. split; [split; cbn; auto|]. split; [vm_compute; reflexivity|]. split; [vm_compute; reflexivity|].
+  apply run_preserves_shape; [split; cbn; auto|vm_compute; reflexivity].
 Qed.
